@@ -5,5 +5,6 @@ package ers
 
 //@ func NewInvariantViolation
 //@   props C14 C19 C12
+//@   mode any
 //@   trusted builds an error value from its arguments; only non-nilness is used
 //@   ensures result != nil
